@@ -123,12 +123,17 @@ check('C12', 'model_checking',
       'run at a named control point) are replayed on the real '
       'BatchSimulation in forked children with the fault injected at that '
       'point; after every process end the projected results file and memory '
-      'are compared with the specification state.',
+      'are recorded.  The verdict is C12_Data.tla: TLC evaluates C12\'s own '
+      'predicates (completion, exact counts, saved trials kept as a prefix, '
+      'no duplicate, no foreign record, a completed save never destroyed) '
+      'on every observed execution; state-by-state equality with Batch.tla '
+      'is reported as a conformance count.',
       'DESIGN.md 4/C12',
       'Trusted: TLC; stub run_once issuing unique trial ids; kills realised '
       'by os._exit at byte-stream points (no power-loss reordering).',
       'TLA+ state machine (Batch.tla) model-checked + spec->code replay of '
-      'TLC behaviours with fault injection at modelled control points',
+      'TLC behaviours with fault injection at modelled control points, '
+      'observed executions judged by TLC (C12_Data.tla)',
       'tlc-data')
 
 check('C14', 'model_checking',
